@@ -58,8 +58,11 @@ def long_cases(ctx):
     """single-line ladder: 10^2 .. 3.2 * 10^6 characters without a newline (quick: every second rung at the top)"""
     if getattr(ctx, "_c16long", None) is not None:
         return ctx._c16long
-    light = scan_streams.rungs(100, 10 ** 4) + ctx.pick([10 ** 5, 10 ** 6, 3162278], scan_streams.rungs(31623, 3162278))
-    heavy = scan_streams.rungs(100, 10 ** 4) + ctx.pick([10 ** 5], scan_streams.rungs(31623, 10 ** 6))
+    from gen import srcdict
+    # + n-1, n, n+1, 2n for every integer that the current source has and the pinned source has not (a size limit, a piece
+    # size, a column base introduced by a change becomes a rung; nothing on the pinned tree)
+    light = scan_streams.rungs(100, 10 ** 4) + ctx.pick([10 ** 5, 10 ** 6, 3162278], scan_streams.rungs(31623, 3162278)) + srcdict.novel_rungs(100, 10 ** 7)
+    heavy = scan_streams.rungs(100, 10 ** 4) + ctx.pick([10 ** 5], scan_streams.rungs(31623, 10 ** 6)) + srcdict.novel_rungs(100, 3 * 10 ** 5)
     ctx._c16long = scan_streams.long_lines(ctx, light, heavy, per_rung=ctx.pick(2, 7), salt="c16long")
     return ctx._c16long
 
@@ -126,6 +129,17 @@ def line_starts(code):
     return st
 
 
+def _is_comment(t):
+    """the token's Pygments type is a comment type (decided HERE, not by the Token class under check)"""
+    from pygments.token import Comment
+    return t.token_type in Comment
+
+
+def _is_whitespace(t):
+    from pygments.token import Text, Whitespace
+    return (t.token_type == Text or t.token_type == Whitespace) and (t.value == "" or t.value.isspace())
+
+
 def oracle(lang, code, fc, toks):
     bad = []
     st = line_starts(code)
@@ -142,15 +156,15 @@ def oracle(lang, code, fc, toks):
         if prev is not None and not (prev[1] <= off and prev[0] < off):
             bad.append("token at offset %d not after the previous one (offset %d, end %d)" % (off, prev[0], prev[1])); break
         prev = (off, off + len(t.value))
-        if t.is_whitespace():
+        if _is_whitespace(t):
             bad.append("whitespace token kept at (%d,%d)" % (l, c)); break
-        if fc and t.is_comment():
-            bad.append("comment token kept although comments were to be filtered"); break
+        if fc and _is_comment(t):
+            bad.append("comment token %r (%s) kept at (%d,%d) although comments were to be filtered" % (t.value[:20], t.token_type, l, c)); break
     if not fc:
         # every comment token of the raw stream must be kept
         from pygments.token import Comment
         raw_comments = sum(1 for (_, tt, v) in sr.lexer_for(lang).get_tokens_unprocessed(code) if tt in Comment)
-        kept = sum(1 for t in toks if t.is_comment())
+        kept = sum(1 for t in toks if _is_comment(t))
         if raw_comments != kept:
             bad.append("%d comment tokens in the text, %d kept" % (raw_comments, kept))
     return bad
@@ -209,7 +223,7 @@ def correspond(ctx):
     dist["second_call_probes"] = probes
     return {
         "evaluations": len(flat) + nlong + probes, "distinct_nontrivial": len(nontrivial) + nlong,
-        "rule": "edge-case texts x 7 lexers, canonical programs with and without trailing newline, malformed stream (prefixes, suffixes, edits, token soups), vendored corpus, random single-character insertions (newline, tab, non-ASCII, astral, NBSP, U+000B U+000C U+001C-E U+0085 U+2028 U+2029, U+FEFF); a share of all texts behind a byte order mark / on one line without any newline / both / with a separator character; single-line ladder 10^2 .. 3.2*10^6 characters (string literal, block comment followed by code, short statements, one-line function; alone with and without final newline, as second line) - up to 10^4 characters against the model, above by the direct oracle only; each with comments filtered and kept; second-call probe on a sample (same lexer object, first result mutated); non-trivial = distinct (language, text, mode) with at least one kept token",
+        "rule": "token soups and edited programs now also carry comment openers / closers of OTHER languages (<!-- --> # -- % (* {- ; REM =begin ...) at arbitrary places; ladder sizes + n-1, n, n+1, 2n for integers new in the source; comment / white-space kinds judged from the Pygments token type, not by the Token class under check; edge-case texts x 7 lexers, canonical programs with and without trailing newline, malformed stream (prefixes, suffixes, edits, token soups), vendored corpus, random single-character insertions (newline, tab, non-ASCII, astral, NBSP, U+000B U+000C U+001C-E U+0085 U+2028 U+2029, U+FEFF); a share of all texts behind a byte order mark / on one line without any newline / both / with a separator character; single-line ladder 10^2 .. 3.2*10^6 characters (string literal, block comment followed by code, short statements, one-line function; alone with and without final newline, as second line) - up to 10^4 characters against the model, above by the direct oracle only; each with comments filtered and kept; second-call probe on a sample (same lexer object, first result mutated); non-trivial = distinct (language, text, mode) with at least one kept token",
         "samples": [{"language": l, "code": c[:80], "filter_comments": fc, "model": m[:80]} for (l, c, fc), m in list(zip(flat, model))[40:44]],
         "exhaustive": False, "distribution": dist,
         "disagreements": dis[:50], "oracle_failures": fails[:50],
